@@ -1,0 +1,10 @@
+//go:build verif
+
+package bits
+
+// Property C01: trace effect of ReadZeroTerminatedString (definitional, like the clauses of the other Read* methods in
+// verif_contracts.go): without error it has consumed the bytes of the returned string and the terminating zero byte, which
+// is what WriteString(s, true) writes.
+//@ func (*FixedSliceReader).ReadZeroTerminatedString
+//@   defines[C01] s.err == nil ==> ghost(s).tr == trApp(trApp(old(ghost(s).tr), chBytes(result)), chU(8, uint64(0)))
+//@   assigns s.pos, s.err, ghost(s).tr
